@@ -17,7 +17,7 @@ def check(run, args):
         run.tlc("JenOutput.tla", "chunks2_Output.cfg", overrides=dict(Chunks=2), workers=4)
     trace = os.path.join(run.scratch, "trace.ndjson")
     stats = os.path.join(run.scratch, "stats.json")
-    run.harness_run(["output", trace, stats, cf, "--variants", "32" if thorough else "8"])
+    run.harness_run(["output", trace, stats, "--variants", "32" if thorough else "8", cf])
     os.remove(cf)
     st = json.load(open(stats))
     recs = run.validate_trace("Trace_Output.tla", "Trace_Output.cfg", trace_path=trace)
